@@ -52,6 +52,12 @@ type Step struct {
 	Kind    int     `json:"kind,omitempty"`
 	Attrs   []vk.KV `json:"attrs,omitempty"`
 	Links   []SC    `json:"links,omitempty"`
+	// ViaSpan (child only): the tracer is obtained from the PARENT SPAN
+	// (trace.SpanFromContext(ctx).TracerProvider().Tracer(...)) instead of from
+	// the provider - the usual way of instrumentation that was only handed a
+	// context. Every span the SDK hands out, recording or dropped, leads back
+	// to the SDK's provider.
+	ViaSpan bool `json:"via_span,omitempty"`
 }
 
 // PipeCase is one generated input of the pipeline check.
@@ -237,6 +243,7 @@ func genPipe(t *rapid.T) PipeCase {
 				s.Of = rapid.IntRange(0, started-1).Draw(t, "of")
 			}
 			genStartFields(t, &s)
+			s.ViaSpan = rapid.IntRange(0, 3).Draw(t, "via_span") == 0
 			started++
 		case "ctx":
 			psc := SC{
@@ -737,7 +744,12 @@ func runPipe(c PipeCase) ([]vk.Violation, vk.Info) {
 		}
 
 		logBefore := len(r.log)
-		sctx, span := tracer.Start(ctx, st.Name, so...)
+		startTracer := tracer
+		if st.Op == "child" && st.ViaSpan && inCtx.IsValid() {
+			startTracer = trace.SpanFromContext(ctx).TracerProvider().Tracer("c09")
+			info.Class("child_started_through_the_parent_span's_TracerProvider")
+		}
+		sctx, span := startTracer.Start(ctx, st.Name, so...)
 		sc := span.SpanContext()
 		if envMode {
 			// ask the reference tree what the configured sampler has to
